@@ -4,11 +4,9 @@ USES = ["shared"]
 
 
 def contracts():
-    c05 = [c for c in C05.contracts() if c.ident in ("ErrorHandler._handle_if", "ErrorCommsManager.do_i_fail", "CsvPath.collect_error[own_list]")]
-    keep = ("Matcher.matches", "CsvPath._consider_line")
-    cr = [c for c in core.contracts() if c.interface or getattr(c, "_foreign", False) or c.ident in keep]
-    ct = [c for c in control.contracts() if c.interface or c.ident in ("Fail._decide_match", "FailAll._decide_match", "Failed._decide_match",
-                                                                        "Stopper._stop_me", "Stop._decide_match")]
+    c05 = core.select(C05.contracts(), ("ErrorHandler._handle_if", "ErrorCommsManager.do_i_fail", "CsvPath.collect_error[own_list]"))
+    cr = core.select(core.contracts(), ("Matcher.matches", "CsvPath._consider_line"))
+    ct = core.select(control.contracts(), ("Fail._decide_match", "FailAll._decide_match", "Failed._decide_match", "Stopper._stop_me", "Stop._decide_match"))
     return c05 + cr + ct + managers.contracts()
 
 
